@@ -298,6 +298,20 @@ def _named_rejections(ctx):
         if ctx.counts.get(nm, 0) < 1:
             ctx.ob("R2", "missing|" + nm, "authentication.py", "no explicit raise found for the named rejection %s: the condition is no longer reported by a dedicated error" % nm.split(".")[1], False)
 
+    # ---- "insufficient signatures are reported as a signature error": an entry the verifier cannot
+    # use is passed over and counted out - it does not end the call with an error of its own
+    # (C02-R1, the per-entry loop is total) ...
+    from .c02 import loop_total
+    from .vs import VSModel
+
+    m_vs = VSModel(eng)
+    loop_total(ctx.sub("DEP-C02"), m_vs, eng.prog.site(m_vs.sm.fi.mod, m_vs.sm.fi.node, m_vs.sm.fi.qualname), "R1")
+    # ... and "a root-version mismatch is reported as a metadata-verification error": every offer
+    # whose version is not trusted + 1 is refused (C03's rule set, without its own dependencies)
+    from . import c03
+
+    c03.run(ctx.sub("DEP-C03"), deps=False)
+
 
 def _mentions(f, t):
     if f == t:
